@@ -6,7 +6,7 @@ INT_TYPES = ("unsigned long", "unsigned int", "int", "long", "unsigned short",
              "short", "unsigned char", "signed char", "char", "unsigned long long",
              "long long")
 
-ALLOC_KINDS = ("G1", "G2", "G3", "DECL")
+ALLOC_KINDS = ("G1", "G2", "G3", "G3T", "DECL")
 
 ALLOC_METHODS = {
     "std::vector::resize": 0, "std::vector::reserve": 0, "std::vector::assign": 0,
@@ -34,7 +34,7 @@ def summary_sinks(eng, ft, fn, kind):
                     continue
                 for i, kinds in s["sink"].items():
                     if kind in kinds and i < len(args):
-                        labs = ft.labels(args[i])
+                        labs = ft.labels(args[i], b)
                         if labs:
                             desc, gk = kinds[kind]
                             out.append(Sink(kind, gk, n, b, labs,
@@ -45,7 +45,7 @@ def summary_sinks(eng, ft, fn, kind):
             if pl and pl[0] == "f" and (pl[1], pl[2]) in eng.sizing_fields:
                 kinds = eng.sizing_fields[(pl[1], pl[2])]
                 if kind in kinds:
-                    labs = ft.labels(n.get("r"))
+                    labs = ft.labels(n.get("r"), b)
                     # do not chain a field onto itself
                     labs = {l for l in labs if l != ("field", pl[1], pl[2])}
                     if labs:
@@ -68,7 +68,7 @@ def alloc_sinks(eng, ft, fn):
                 if idx is None:
                     continue
                 if idx < len(args) and _is_int_param(n, idx):
-                    labs = ft.labels(args[idx])
+                    labs = ft.labels(args[idx], b)
                     if labs:
                         out.append(Sink("ALLOC", ALLOC_KINDS, n, b, labs,
                                         "%s(size)" % base, fn.site(n.get("loc", "")), fn))
@@ -77,13 +77,13 @@ def alloc_sinks(eng, ft, fn):
             if cls.startswith(("std::vector<", "std::basic_string<", "std::deque<")):
                 args = n.get("args", [])
                 if args and _is_int_param(n, 0):
-                    labs = ft.labels(args[0])
+                    labs = ft.labels(args[0], b)
                     if labs:
                         out.append(Sink("ALLOC", ALLOC_KINDS, n, b, labs,
                                         "sized constructor of %s" % strip_targs(cls),
                                         fn.site(n.get("loc", "")), fn))
         elif k == "new" and "array" in n:
-            labs = ft.labels(n.get("array"))
+            labs = ft.labels(n.get("array"), b)
             if labs:
                 out.append(Sink("ALLOC", ALLOC_KINDS, n, b, labs,
                                 "new %s[size]" % n.get("t"), fn.site(n.get("loc", "")), fn))
@@ -96,7 +96,7 @@ GROW_SHORT = {"push_back", "emplace_back", "insert", "emplace", "push",
               "AddEntryString", "AddEntryInt", "AddEntryDouble", "AddEntry",
               "AddSubMetadata", "AddAttributeMetadata", "AddAttribute",
               "AddAttributeToCurrentDecoder"}
-LOOP_KINDS = ("G1", "G2", "G3", "DECL")
+LOOP_KINDS = ("G1", "G2", "G3", "G3T", "DECL")
 
 
 def loopgrow_sinks(eng, ft, fn):
@@ -130,11 +130,9 @@ def loopgrow_sinks(eng, ft, fn):
         for blk in cand:
             if all(x in body for x in blk.succ if x is not None):
                 continue
-            at = ft.atom(blk.cond, True)
-            if at is None:
-                continue
-            l, op, r = at
-            labs = ft.labels(l) | ft.labels(r)
+            labs = set()
+            for l, op, r in ft.atoms(blk.cond, True):
+                labs |= ft.labels(l, blk.id) | ft.labels(r, blk.id)
             if labs:
                 bound_labels |= labs
                 cond_src, cond_block = blk.condsrc, blk
@@ -172,11 +170,22 @@ def enumcast_sinks(eng, ft, fn):
     out = []
     for n, b, rk, ev in fn.nodes():
         if n.get("k") == "cast" and n.get("toenum"):
-            labs = ft.labels(n.get("e"))
+            labs = ft.labels(n.get("e"), b)
             if labs:
+                pre = None
+                e = n.get("e")
+                while isinstance(e, dict) and e.get("k") == "icast":
+                    e = e.get("e")
+                en = eng.F.enums.get(n.get("to"))
+                if isinstance(e, dict) and e.get("k") == "field" and "bw" in e and en:
+                    mx = max([x["v"] for x in en["enumerators"]] or [0])
+                    rng = (1 << max(1, mx.bit_length())) - 1
+                    if (1 << e["bw"]) - 1 <= rng:
+                        pre = "operand is a %d-bit bit-field; every value lies in the value range of %s" % (
+                            e["bw"], n.get("to"))
                 out.append(Sink("ENUMCAST", ENUM_KINDS, n, b, labs,
                                 "%s cast to enum %s" % (n.get("style"), n.get("to")),
-                                fn.site(n.get("loc", "")), fn))
+                                fn.site(n.get("loc", "")), fn, pre=pre))
     out += summary_sinks(eng, ft, fn, "ENUMCAST")
     return out
 
@@ -191,7 +200,7 @@ def subscript_sinks(eng, ft, fn):
     for n, b, rk, ev in fn.nodes():
         k = n.get("k")
         if k == "sub":
-            labs = ft.labels(n.get("idx"))
+            labs = ft.labels(n.get("idx"), b)
             if labs:
                 out.append(Sink("SUBSCRIPT", SUB_KINDS, n, b, labs,
                                 "array subscript", fn.site(n.get("loc", "")), fn))
@@ -200,7 +209,7 @@ def subscript_sinks(eng, ft, fn):
             if base.endswith(SUBSCRIPT_CALLS) and n.get("args"):
                 if base.startswith(("std::map", "std::unordered_map")):
                     continue
-                labs = ft.labels(n["args"][0])
+                labs = ft.labels(n["args"][0], b)
                 if labs:
                     out.append(Sink("SUBSCRIPT", SUB_KINDS, n, b, labs,
                                     "index of %s" % base, fn.site(n.get("loc", "")), fn))
@@ -220,7 +229,7 @@ def rawwin_sinks(eng, ft, fn):
         base = strip_targs(n.get("fn") or "")
         args = n.get("args", [])
         if base in ("draco::DecoderBuffer::Advance", "draco::DecoderBuffer::StartDecodingFrom"):
-            labs = ft.labels(args[0]) if args else set()
+            labs = ft.labels(args[0], b) if args else set()
             if labs:
                 out.append(Sink("RAWWIN", RAW_KINDS, n, b, labs, "%s(amount)" % base,
                                 fn.site(n.get("loc", "")), fn))
@@ -238,7 +247,7 @@ def rawwin_sinks(eng, ft, fn):
         for i, a in enumerate(args):
             if not _is_int_param(n, i):
                 continue
-            labs = ft.labels(a)
+            labs = ft.labels(a, b)
             if labs:
                 out.append(Sink("RAWWIN", RAW_KINDS, n, b, labs,
                                 "window (data_head, length) passed to %s" % base,
@@ -250,8 +259,12 @@ FACE_KINDS = ("G2",)
 
 
 def faceidx_sinks(eng, ft, fn):
-    """Stream-derived values stored as face indices (Mesh::AddFace/SetFace)."""
+    """Stream-derived values stored as face indices.  The obligation sits at
+    each *store* into the face object that is later handed to
+    Mesh::AddFace/SetFace (the per-index loop makes the store, not the
+    AddFace call, the place a guard can dominate)."""
     out = []
+    face_places = {}
     for n, b, rk, ev in fn.nodes():
         if n.get("k") != "call":
             continue
@@ -261,10 +274,32 @@ def faceidx_sinks(eng, ft, fn):
         args = n.get("args", [])
         if not args:
             continue
-        labs = ft.labels(args[-1])
-        if labs:
-            out.append(Sink("FACEIDX", FACE_KINDS, n, b, labs,
-                            "face indices passed to %s" % base,
-                            fn.site(n.get("loc", "")), fn))
+        pl = ft.place_of(args[-1])
+        if pl is not None:
+            face_places[pl] = base
+        else:
+            labs = ft.labels(args[-1], b)
+            if labs:
+                out.append(Sink("FACEIDX", FACE_KINDS, n, b, labs,
+                                "face indices passed to %s" % base,
+                                fn.site(n.get("loc", "")), fn))
+    if face_places:
+        for n, b, rk, ev in fn.nodes():
+            k = n.get("k")
+            tgt = val = None
+            if k == "bin" and n.get("op") == "=":
+                tgt, val = n.get("l"), n.get("r")
+            elif k == "call" and n.get("opcall") and "obj" in n and n.get("args") and \
+                    strip_targs(n.get("fn") or "").endswith("::operator="):
+                tgt, val = n["obj"], n["args"][0]
+            if tgt is None:
+                continue
+            pl = ft.place_of(tgt)
+            if pl in face_places:
+                labs = ft.labels(val, b)
+                if labs:
+                    out.append(Sink("FACEIDX", FACE_KINDS, n, b, labs,
+                                    "index stored in the face handed to %s" % face_places[pl],
+                                    fn.site(n.get("loc", "")), fn))
     out += summary_sinks(eng, ft, fn, "FACEIDX")
     return out
